@@ -377,7 +377,7 @@ def kernel_bools(ctx, name, requires, terms, shard=300, open_scope='Q_scope'):
     # evaluate once: build list once via let
     def body2(lo, hi):
         items = ';\n '.join(terms[lo:hi])
-        return f'let l := [\n {items}] in (length l, mismatches (fun b : bool => b) 0 l)'
+        return f'let l := [\n {items}] in (List.length l, mismatches (fun b : bool => b) 0 l)'
 
     return kernel_eval(ctx, name, ['Base.Flat'] + list(requires), body2, len(terms), shard, open_scope)
 
